@@ -102,7 +102,7 @@ def check_texts(items):
 def gen_prog_items(seed, n):
     items = []
     for k in range(n):
-        text, feats = proggen.generate(seed * 99991 + k, wild=(k % 4 == 0))
+        text, feats = proggen.generate(seed * 99991 + k, wild=(k % 4 == 0), same_line=True)
         items.append({"text": text, "mode": ["", "debug", "assemble", "preprocess"][k % 4], "big_stack": k % 3 == 0,
                       "no_debug_ops": k % 11 == 0})
     return items
